@@ -195,9 +195,7 @@ def pathOf (i : Input) : String :=
       | .identity _ => "identity" | .noIdentity => "none" | .rejected e => "rejected/" ++ errS e
     "idp:" ++ idp ++ " | rcpt:" ++ rc ++ " | " ++ out
 
-def handle (line : Json) : Json :=
-  let c := (obj? line "case").getD Json.null
-  let impl := (obj? line "impl").getD Json.null
+def handleOne (c impl : Json) : Json :=
   let i := parseInput c
   let m := observe i
   let io := parseObs impl
@@ -206,5 +204,37 @@ def handle (line : Json) : Json :=
     ("spec_model", spec i m), ("spec_impl", spec i io), ("why", jstrs failing),
     ("classes", Json.mkObj [("early", earlyReturnClass i.call), ("object_form", objectFormClass i.call),
                             ("well_posed", wellPosed i.call), ("plain_accepted", plainAccepted i)])]
+
+/-- short branch id of one step of a history -/
+def shortPath (i : Input) : String :=
+  match createAuthnResponse i.call with
+  | .error _ => "refused"
+  | .ok iss =>
+    let s := receive i.rc (i.sent iss.wire)
+    bodyKindS (bodyKind iss.wire.body) ++ "/" ++ advKindS (advKind iss.wire.body.outer.advice) ++ ":" ++
+      (if s.encrypted then (if s.decryptable then "opens" else "shut") else "clear")
+
+/-- A history: the steps one IdP instance / one recipient instance went through, each with the metadata in
+    force at that step.  The model answers every step on its own (it is stateless); the specification of the
+    history is `specHistory`. -/
+def handleHistory (steps impls : List Json) : Json :=
+  let inputs := steps.map parseInput
+  let ios := impls.map parseObs
+  let ms := observeHistory inputs
+  let per := (steps.zip impls).map (fun p => handleOne p.1 p.2)
+  let why := (per.zipIdx.map (fun p => (asStrList (arrD p.1 "why")).map (fun w => s!"step{p.2}:{w}"))).flatten
+  let anyClass (k : String) : Bool := per.any (fun r => boolD ((obj? r "classes").getD Json.null) k)
+  Json.mkObj [("model", Json.mkObj [("steps", jarr (per.map (fun r => (obj? r "model").getD Json.null)))]),
+    ("path", Json.str ("history " ++ " > ".intercalate (inputs.map shortPath))),
+    ("spec_model", specHistory inputs ms), ("spec_impl", specHistory inputs ios), ("why", jstrs why),
+    ("classes", Json.mkObj [("early", anyClass "early"), ("object_form", anyClass "object_form"),
+                            ("well_posed", anyClass "well_posed"), ("history", true)])]
+
+def handle (line : Json) : Json :=
+  let c := (obj? line "case").getD Json.null
+  let impl := (obj? line "impl").getD Json.null
+  match arr? c "history" with
+  | some steps => handleHistory steps (arrD impl "steps")
+  | none => handleOne c impl
 
 def main : IO Unit := serve handle
